@@ -66,6 +66,9 @@ func (p *Prog) noteImports(t *Type, into map[string]bool) {
 			if x.Decl.Pkg != nil {
 				into["ext:"+x.Decl.Pkg.Dir] = true
 			}
+			for _, a := range x.Decl.TArgs {
+				mention(a)
+			}
 		}
 	}
 	mention(t)
@@ -245,6 +248,14 @@ func (p *Prog) Files() map[string]string {
 			if d.Pkg == nil {
 				body += declSrc(d, p.Q(), imps, p.noteImports)
 				body += userMethods(d)
+			}
+		}
+		for _, g := range p.Env.Generics {
+			body += g.Src()
+		}
+		for _, d := range p.Env.GenericInsts {
+			for _, a := range d.TArgs {
+				_ = a // the arguments are mentioned where the instantiation is used, not in the declaration
 			}
 		}
 		for _, a := range p.Env.Aliases {
